@@ -32,6 +32,7 @@ func draw(t *rapid.T) sim.ChainCase {
 		Net: sim.NetOpts{MaxForkHeight: rapid.SampledFrom([]int{8, 16, 30}).Draw(t, "forkSpan"), V2Only: rapid.IntRange(0, 4).Draw(t, "v2only") == 0,
 			ProofEraSpread: rapid.SampledFrom([]int{0, 6, 12}).Draw(t, "eraSpread")},
 		MinBlocks: 10, MaxBlocks: 40, Reorgs: rapid.Bool().Draw(t, "reorgs"), MaxReorg: 3, Profile: sim.Profile{Contracts: 4, MaxTxns: 6},
+		HugeFiles: true, // some contracts commit to virtual files of up to 2^64-1 bytes (sparse reference tree)
 		OnBlock: func(g *sim.Gen, b *sim.Builder) {
 			switch rapid.IntRange(0, 11).Draw(g.T, "scenario") {
 			case 0:
